@@ -56,6 +56,11 @@ pub struct Txtpp {
     ///
     /// This is to track we don't unnecessarily process the same file twice in the first pass
     files: HashSet<AbsPath>,
+    /// Directories already scheduled for scanning
+    ///
+    /// A directory can be reached more than once (given twice, or through symbolic links, which
+    /// can form a loop), so we need to prevent scanning the same directory again.
+    dirs: HashSet<AbsPath>,
 }
 
 impl Txtpp {
@@ -89,6 +94,7 @@ impl Txtpp {
             send,
             recv,
             files: HashSet::new(),
+            dirs: HashSet::new(),
         };
 
         let result = runtime.run_internal();
@@ -241,6 +247,11 @@ impl Txtpp {
     }
 
     fn execute_directory(&mut self, dir: AbsPath, recursive: bool) {
+        if !self.dirs.insert(dir.clone()) {
+            // already counted in total by the caller
+            self.progress.add_done_quiet(1);
+            return;
+        }
         let _ = self
             .progress
             .print_status(verbs::SCANNING, &dir.to_string(), Color::Yellow, true);
